@@ -428,9 +428,11 @@ def _maybe_unbrace(draw, f, blk, then_with_else=False):
     if "unbraced" not in f or blk is None or blk[0] != "block" or len(blk[1]) != 1:
         return blk
     s = blk[1][0]
-    if s[0] not in ("expr", "store", "jump", "empty"):
-        # never a declaration; a nested if / for is kept in braces: `if (a) if (b) x; else y;` is the dangling-else
-        # shape of the listed finding KF-C17-dangling-else-binds-to-outer-if (excluded by construction)
+    if s[0] not in ("expr", "store", "jump", "empty", "if", "for"):
+        return blk      # never a declaration
+    if then_with_else and s[0] in ("if", "for"):
+        # printing `if (a) <if without else> else y` without braces would hand the else to the inner if (C's rule):
+        # the text would no longer mean the AST
         return blk
     return s if draw(st.integers(0, 2)) == 0 else blk
 
@@ -784,6 +786,11 @@ def normalize(stmts, features, subs=None, stats=None, vartypes=None):
                     # division is done in the common type: a signed destination would be converted to wider unsigned
                     note("excluded:signed->wider-unsigned conversion (cast via signed inserted)")
                     rhs = ("cast", (True, t[1]), rhs)
+                elif "widen_unsigned_from_signed" not in features and _su_widen(ty(rhs), lt):
+                    # the compiler converts the right operand to the (narrow unsigned) target type first: the same
+                    # signed->wider-unsigned conversion, although C itself computes in int here
+                    note("excluded:signed->wider-unsigned conversion (cast via signed inserted)")
+                    rhs = ("cast", (True, lt[1]), rhs)
             return ("assign", e[1], lhs, rhs)
         if k == "post":
             return e
